@@ -154,18 +154,34 @@ class Ctx:
     def rem(self, s, x):
         return z3.Store(s, x, z3.BoolVal(False))
 
-    def union(self, a, b):
+    def setof(self, f):
+        """{x | f(x)} : a lambda in mode q, an explicit finite table in mode g."""
+        if self.mode == "g":
+            r = self.EMPTY
+            for i in self.ids:
+                r = z3.Store(r, i, f(i))
+            return r
         x = self.fresh("u", self.Id)
-        r = z3.Lambda([x], z3.Or(z3.Select(a, x), z3.Select(b, x)))
-        return r
+        return z3.Lambda([x], f(x))
+
+    def mapof(self, f, like):
+        """Array x -> f(x) of the sort of `like`."""
+        if self.mode == "g":
+            r = like
+            for i in self.ids:
+                r = z3.Store(r, i, f(i))
+            return r
+        x = self.fresh("u", self.Id)
+        return z3.Lambda([x], f(x))
+
+    def union(self, a, b):
+        return self.setof(lambda x: z3.Or(z3.Select(a, x), z3.Select(b, x)))
 
     def inter(self, a, b):
-        x = self.fresh("u", self.Id)
-        return z3.Lambda([x], z3.And(z3.Select(a, x), z3.Select(b, x)))
+        return self.setof(lambda x: z3.And(z3.Select(a, x), z3.Select(b, x)))
 
     def diff(self, a, b):
-        x = self.fresh("u", self.Id)
-        return z3.Lambda([x], z3.And(z3.Select(a, x), z3.Not(z3.Select(b, x))))
+        return self.setof(lambda x: z3.And(z3.Select(a, x), z3.Not(z3.Select(b, x))))
 
     def single(self, x):
         return z3.Store(self.EMPTY, x, z3.BoolVal(True))
